@@ -4,11 +4,12 @@ cd "$(dirname "$0")" || exit 1
 export GOFLAGS=-mod=mod GOPROXY=off GOSUMDB=off GOTOOLCHAIN=local
 mkdir -p .build .work evidence replays
 set -e
-(cd harness && go build -tags verif -o ../.build/vh-plain ./cmd/vh) &
+(cd harness && go build -tags verif -o ../.build/vh-all-plain ./cmd/vh) &
 (cd /repo && go build -tags verif -o /verif/.build/rare .) &
 wait
-(cd harness && go build -tags verif -race -o ../.build/vh-race ./cmd/vh) &
+(cd harness && go build -tags verif -race -o ../.build/vh-all-race ./cmd/vh) &
 (cd /repo && go build -tags verif -race -o /verif/.build/rare-race .) &
 wait
-(cd harness && go build -tags verif -asan -o ../.build/vh-asan ./cmd/vh) || echo "asan flavour unavailable (only used by thorough tiers)"
+(cd harness && go build -tags verif -asan -o ../.build/vh-all-asan ./cmd/vh) || echo "asan flavour unavailable (only used by thorough tiers)"
+rm -f .build/vh-all-*
 echo setup ok
